@@ -236,13 +236,17 @@ func runPair(kv map[string]string) string {
 	var e1, e2, e3, e4 error
 	b1, b2 := true, true
 	wg.Add(4)
-	go func() { defer wg.Done(); b1, e1 = runProg(ctx, c, kv["progc"]) }()
-	go func() { defer wg.Done(); b2, e2 = runProg(ctx, s, kv["progs"]) }()
-	go func() { defer wg.Done(); c2s, e3 = readN(ctx, s, nc, kv["rbuf"]) }()
-	go func() { defer wg.Done(); s2c, e4 = readN(ctx, c, ns, kv["rbuf"]) }()
+	pb := &panicBox{onPanic: cancel}
+	go func() { defer wg.Done(); defer pb.guard(); b1, e1 = runProg(ctx, c, kv["progc"]) }()
+	go func() { defer wg.Done(); defer pb.guard(); b2, e2 = runProg(ctx, s, kv["progs"]) }()
+	go func() { defer wg.Done(); defer pb.guard(); c2s, e3 = readN(ctx, s, nc, kv["rbuf"]) }()
+	go func() { defer wg.Done(); defer pb.guard(); s2c, e4 = readN(ctx, c, ns, kv["rbuf"]) }()
 	wg.Wait()
 	c.CloseNow()
 	s.CloseNow()
+	if m := pb.get(); m != "" {
+		return m
+	}
 	errs := fmt.Sprintf("%s,%s,%s,%s", errClass(e1), errClass(e2), errClass(e3), errClass(e4))
 	rt.cliConn.mu.Lock()
 	wc := append([]byte(nil), rt.cliConn.log...)
